@@ -3,7 +3,9 @@
 does not visit: ALL operands in one float type (float32 and float64), lengths in small units (angstrom, nm, um) and
 large ones (km), times in s / ms / us, the fixed energy in ueV / meV / eV and (float64 operands) J, through the kernel,
 the graph-factory entry and scippneutron.convert, with scalar operands or (30%) three situations at once (fixed energy and
-lengths as arrays along a detector dim, arrival times 2-D).  Arrival times: the physical one t = L1/v(Ei) + L2/v(Ef) for a random
+lengths as arrays along a detector dim, arrival times 2-D).  convert is handed a dense DataArray, a DataArray of binned
+events or a Dataset of 1..3 dense / binned items (CONTAINERS; binned = one event per element with event-wise tof, stored in a
+random order; the answer of a later item is the one checked).  Arrival times: the physical one t = L1/v(Ei) + L2/v(Ef) for a random
 energy on the free leg, t0, the value before it, t0/2, and from the first representable value after t0 (the flight time
 of the fixed-energy leg) up to t0 (1 + 1e-3).  Required:
   * no result is infinite;
@@ -25,9 +27,60 @@ import scipp.constants as const
 MEV = 1.602176634e-22
 
 
+# containers handed to convert(): (form, kinds of the items, index of the item whose answer is checked)
+CONTAINERS = [('DataArray', ('dense',), 0), ('DataArray', ('dense',), 0), ('DataArray', ('binned',), 0), ('Dataset', ('binned',), 0),
+              ('Dataset', ('dense', 'dense'), 1), ('Dataset', ('binned', 'binned'), 1), ('Dataset', ('dense', 'binned'), 1),
+              ('Dataset', ('binned', 'dense'), 1), ('Dataset', ('binned', 'binned', 'binned'), 2), ('Dataset', ('dense', 'binned', 'binned'), 1)]
+
+
+def convert_container(cont, t, fixed, crng):
+    """scippneutron.convert on a DataArray / Dataset whose items are dense (shared dense tof coordinate `t`) or binned
+    (one bin per element of `t`, the arrival times are the event-wise tof; the events of an item are stored in a random
+    order of the bins); returns the energy transfer of the looked-at item in the shape of `t`"""
+    import scippneutron as scn
+    form, kinds, look = cont
+    nel = int(np.prod(t.shape))
+    coords = dict(fixed)
+    if 'dense' in kinds:
+        coords['tof'] = t
+    items, perms = {}, {}
+    for j, kind in enumerate(kinds):
+        if kind == 'dense':
+            items[f'i{j}'] = sc.DataArray(sc.ones(sizes=t.sizes), coords=coords)
+            continue
+        perm = crng.permutation(nel)            # bin k holds the event stored at position pos[k]
+        pos = np.empty(nel, dtype=np.int64)
+        pos[perm] = np.arange(nel)
+        flat = np.asarray(t.values).reshape(-1)
+        ev = sc.array(dims=['event'], values=flat[perm], unit=t.unit, dtype=t.dtype)
+        buf = sc.DataArray(sc.ones(sizes={'event': nel}, unit='counts'), coords={'tof': ev})
+        begin = sc.array(dims=list(t.dims), values=pos.reshape(t.shape), unit=None, dtype='int64')
+        items[f'i{j}'] = sc.DataArray(sc.bins(data=buf, dim='event', begin=begin, end=begin + sc.index(1)), coords=coords)
+        perms[j] = perm
+    if form == 'DataArray':
+        conv = scn.convert(items['i0'], origin='tof', target='energy_transfer', scatter=True)
+    else:
+        conv = scn.convert(sc.Dataset(items), origin='tof', target='energy_transfer', scatter=True)[f'i{look}']
+    if kinds[look] == 'dense':
+        return conv.coords['energy_transfer']
+    if conv.bins is None or 'energy_transfer' not in conv.bins.coords:
+        raise KeyError(f'the events of item {look} of the converted {form}{list(kinds)} carry no energy_transfer coordinate')
+    # one event per bin: the event of each bin, in the shape of `t`
+    et = conv.bins.coords['energy_transfer']
+    sizes = et.bins.size()
+    if int(sizes.min().value) != 1 or int(sizes.max().value) != 1:
+        raise ValueError(f'the bins of item {look} no longer hold one event each')
+    c = et.bins.constituents
+    et = et.transpose(list(t.dims)) if list(et.dims) != list(t.dims) else et
+    c = et.bins.constituents
+    vals = np.asarray(c['data'].values)[np.asarray(c['begin'].values)]
+    return sc.array(dims=list(t.dims), values=vals, unit=c['data'].unit, dtype=c['data'].dtype)
+
+
 def main():
     req = json.load(sys.stdin)
     rng = np.random.default_rng(req.get('seed', 0))
+    crng = np.random.default_rng([int(req.get('seed', 0)), 505])      # containers of the convert route (own stream)
     from scippneutron.conversion import tof as k
     mn = const.m_n.value
     hv, n = [], 0
@@ -145,8 +198,10 @@ def main():
         ename = 'incident_energy' if mode == 'direct' else 'final_energy'
         kw = {'tof': t, 'L1': l1, 'L2': l2, ename: E}
 
+        route_shown = route
+
         def describe(j):
-            return {'mode': mode, 'route': route, 'dtype': dt, 'layout': 'scalar operands' if m == 1 else f'{m} detectors (situation {j} shown)',
+            return {'mode': mode, 'route': route_shown, 'dtype': dt, 'layout': 'scalar operands' if m == 1 else f'{m} detectors (situation {j} shown)',
                     'fixed_energy': [[float(x) for x in Ev] if m > 1 else float(Ev[0]), eu],
                     'L1': [[float(x) for x in l1v] if m > 1 else float(l1v[0]), lu], 'L2': [[float(x) for x in l2v] if m > 1 else float(l2v[0]), lu],
                     'tof_unit': tu, 't0': float(rows[j]['t0v']), 't0_source': rows[j]['t0_src'],
@@ -162,12 +217,16 @@ def main():
                 r = fac('tof')['energy_transfer'](**kw)
             else:
                 import scippneutron as scn
-                da = sc.DataArray(sc.ones(sizes=t.sizes), coords=kw)
-                r = scn.convert(da, origin='tof', target='energy_transfer', scatter=True).coords['energy_transfer']
+                cont = CONTAINERS[int(crng.integers(len(CONTAINERS)))]
+                route_shown = 'convert' if cont[0] == 'DataArray' and cont[1] == ('dense',) else \
+                    f'convert on {cont[0]}{list(cont[1])}, item {cont[2]} looked at'
+                r = convert_container(cont, t, {kk: vv for kk, vv in kw.items() if kk != 'tof'}, crng)
         except Exception as ex:
             report(f'{mode}:sweep:{route}-raises', f'energy transfer ({mode}, {route}) raises {type(ex).__name__}: {str(ex)[:150]} '
                    'for positive finite operands', describe(0))
             continue
+        if route_shown != route:
+            cls += '/' + ('binned-DataArray' if cont[0] == 'DataArray' else f'Dataset-of-{len(cont[1])}')
         classes[cls] = classes.get(cls, 0) + 1
         try:
             if m > 1:
